@@ -40,7 +40,7 @@ STUBS = ["Crc.calculate -> uninterpreted function keyed by the algorithm paramet
          "cryptography symmetric API -> ideal cipher model; AES-CTR = XOR with UF keystream per (key, counter block)",
          "hmac/get_hash -> uninterpreted functions with argument capture", "random_bytes -> fresh symbolic bytes",
          "Certificate -> StubCertificate (opaque body; parse is inverse of export), signature provider -> UF SIGN"]
-MUST_REACH = ["cmd\\..*", "rom\\..*", "parse\\..*"]
+MUST_REACH = ["cmd\\..*", "rom\\..*", "parse\\..*", "rom20\\..*", "parse20\\..*"]
 OPTS = {"quick": {"case_timeout_s": 400}, "thorough": {"case_timeout_s": 2400}}
 
 KINDS = ["nop", "load1", "load15", "load16", "load17", "load32", "fill1", "fill2", "fill4", "jump", "jump_sp", "call",
@@ -292,6 +292,64 @@ def _cert_block(env, c):
     return cb, sp, bits // 8
 
 
+def decode_sections(env, c, b, n, sect0, sig_end, nonce, dek, mac, specs, v21=True):
+    """ROM walk over the boot sections from file offset sect0: returns (end position, MAC entries seen, coverage map)"""
+    # ---- sections ------------------------------------------------------------------------------------
+    n0 = u32le(nonce, 12)
+    pos = sect0
+    total_macs = 0
+    covered = [False] * n
+    for i in range(sect0):
+        covered[i] = i < sig_end
+    for si, (uid, sp_) in enumerate(specs):
+        env.prove(n >= pos + 48, "rom.section_header_present")
+
+        def cblock(off):
+            ctr = n0 + off // 16
+            return list(nonce[:12]) + list(ctr.to_bytes(4, "little"))
+        enc_hdr = b[pos: pos + 16]
+        env.prove(env.bytes_eq(b[pos + 16: pos + 48], K.hmac(mac, enc_hdr)), "rom.section_header_mac")
+        hdr = K.ctr_block(dek, cblock(pos), enc_hdr)
+        s = 0x5A
+        for x in hdr[1:16]:
+            s = s + x
+        env.prove(hdr[0] == s % 256, "rom.section_header_checksum")
+        env.prove(env.And(hdr[1] == 1, u32le(hdr, 4) == uid), "rom.section_tag_and_uid")
+        nblocks, hc = u32le(hdr, 8), u32le(hdr, 12)
+        raw_blocks = sum(x[0].raw_size for x in sp_) // 16
+        exp_hc = min(c["hmac"], raw_blocks)
+        ok1 = env.prove(nblocks == raw_blocks, "rom.section_block_count")
+        ok2 = env.prove(env.And(hc == exp_hc, exp_hc >= 1), "rom.section_mac_count")
+        if not (ok1 and ok2):
+            return None, total_macs, covered      # a header that does not decode: the ROM stops here, so does the walk
+        nblocks, hc = raw_blocks, exp_hc
+        total_macs += hc
+        tab = pos + 48
+        cmds = tab + 32 * hc
+        end = cmds + 16 * nblocks
+        env.prove(n >= end, "rom.section_fits_file")
+        # section MAC table: entry i authenticates its share of the encrypted command blocks
+        per = (nblocks // hc) * 16
+        o = cmds
+        for i in range(hc):
+            e = end if i == hc - 1 else o + per
+            env.prove(env.bytes_eq(b[tab + 32 * i: tab + 32 * i + 32], K.hmac(mac, b[o:e])), "rom.section_mac_entry")
+            for j in range(o, e):
+                covered[j] = True
+            o = e
+        for j in range(pos, cmds):
+            covered[j] = True
+        if si == 0 and v21:
+            env.prove(env.bytes_eq(b[96:128], K.hmac(mac, b[pos + 16: cmds])), "rom.header_mac_over_first_section_macs")
+        plain = []
+        for j in range(nblocks):
+            off = cmds + 16 * j
+            plain += K.ctr_block(dek, cblock(off), b[off: off + 16])
+        rom_decode_cmds(env, plain, sp_, "rom")
+        pos = end
+    return pos, total_macs, covered
+
+
 def h_rom(env, c):
     kek = env.bytes("kek", 32)
     dek, mac, nonce = env.bytes("dek", 32), env.bytes("mac", 32), env.bytes("nonce", 16)
@@ -376,61 +434,15 @@ def h_rom(env, c):
         env.prove(image_blocks * 16 == n, "rom.header_image_blocks")
         env.prove(first_tag_block * 16 == sect0, "rom.header_first_boot_tag_block")
     env.prove(first_sect_id == specs[0][0], "rom.header_first_boot_section_id")
-    # ---- sections ------------------------------------------------------------------------------------
-    n0 = u32le(nonce, 12)
-    pos = sect0
-    total_macs = 0
-    covered = [False] * n
-    for i in range(sect0):
-        covered[i] = i < sig_off + sig_len
-    for si, (uid, sp_) in enumerate(specs):
-        env.prove(n >= pos + 48, "rom.section_header_present")
-
-        def cblock(off):
-            ctr = n0 + off // 16
-            return list(nonce[:12]) + list(ctr.to_bytes(4, "little"))
-        enc_hdr = b[pos: pos + 16]
-        env.prove(env.bytes_eq(b[pos + 16: pos + 48], K.hmac(mac, enc_hdr)), "rom.section_header_mac")
-        hdr = K.ctr_block(dek, cblock(pos), enc_hdr)
-        s = 0x5A
-        for x in hdr[1:16]:
-            s = s + x
-        env.prove(hdr[0] == s % 256, "rom.section_header_checksum")
-        env.prove(env.And(hdr[1] == 1, u32le(hdr, 4) == uid), "rom.section_tag_and_uid")
-        nblocks, hc = u32le(hdr, 8), u32le(hdr, 12)
-        nblocks = nblocks if isinstance(nblocks, int) else nblocks.__index__()
-        hc = hc if isinstance(hc, int) else hc.__index__()
-        raw_blocks = sum(x[0].raw_size for x in sp_) // 16
-        env.prove(nblocks == raw_blocks, "rom.section_block_count")
-        env.prove(hc == min(c["hmac"], raw_blocks) and hc >= 1, "rom.section_mac_count")
-        total_macs += hc
-        tab = pos + 48
-        cmds = tab + 32 * hc
-        end = cmds + 16 * nblocks
-        env.prove(n >= end, "rom.section_fits_file")
-        # section MAC table: entry i authenticates its share of the encrypted command blocks
-        per = (nblocks // hc) * 16
-        o = cmds
-        for i in range(hc):
-            e = end if i == hc - 1 else o + per
-            env.prove(env.bytes_eq(b[tab + 32 * i: tab + 32 * i + 32], K.hmac(mac, b[o:e])), "rom.section_mac_entry")
-            for j in range(o, e):
-                covered[j] = True
-            o = e
-        for j in range(pos, cmds):
-            covered[j] = True
-        if si == 0:
-            env.prove(env.bytes_eq(b[96:128], K.hmac(mac, b[pos + 16: cmds])), "rom.header_mac_over_first_section_macs")
-        plain = []
-        for j in range(nblocks):
-            off = cmds + 16 * j
-            plain += K.ctr_block(dek, cblock(off), b[off: off + 16])
-        rom_decode_cmds(env, plain, sp_, "rom")
-        pos = end
+    pos, total_macs, covered = decode_sections(env, c, b, n, sect0, sig_off + sig_len, nonce, dek, mac, specs)
+    if pos is None:
+        return
     env.prove(pos == n, "rom.no_trailing_bytes")
     env.prove(max_macs == total_macs, "rom.header_max_section_mac_count")
     env.prove(all(covered), "rom.every_byte_signed_or_maced")
     # ---- SPSDK's own parser returns the same content -----------------------------------------------------
+    if any(not ok for lab, ok in env.trace if not lab.endswith("load_count_is_data_length")):   # (that one: recorded finding)
+        return      # (the own parser is compared on files the ROM model accepts; garbage makes its exploration explode)
     back = IMG.BootImageV21.parse(data, kek=kek)
     env.prove(str(back.header.product_version) == c["pv"].upper(), "parse.product_version")
     env.prove(str(back.header.component_version) == c["cv"].upper(), "parse.component_version")
@@ -440,6 +452,69 @@ def h_rom(env, c):
     env.prove(len(sec0._commands) == len(specs[0][1]), "parse.first_section_command_count")
     for got, (cmd, hdr, payload) in zip(sec0._commands, specs[0][1]):
         env.prove_eq(got.export()[:16], cmd.export()[:16], "parse.command_equals_given")
+
+
+def h_rom20(env, c):
+    """SB 2.0, unsigned: header | HMAC(mac, header) | wrapped DEK+MAC | boot sections (same section format as 2.1)"""
+    kek = env.bytes("kek", 32)
+    dek, mac, nonce = env.bytes("dek", 32), env.bytes("mac", 32), env.bytes("nonce", 16)
+    env.assume(u32le(nonce, 12) <= 0xFFFF0000)
+    build = env.int("build", 0, 0xFFFFFFFF)
+    sections, specs = [], []
+    ci = 0
+    for si, kinds in enumerate(c["sections"]):
+        sp_ = []
+        for k in kinds:
+            sp_.append(make_cmd(env, k, ci))
+            ci += 1
+        uid = env.int(f"uid{si}", 0, 0xFFFFFFFF)
+        for u0, _ in specs:
+            env.assume(uid != u0)          # SB2.0 refuses two sections with one UID (documented error)
+        sections.append(SEC.BootSectionV2(uid, *[x[0] for x in sp_], hmac_count=c["hmac"]))
+        specs.append((uid, sp_))
+    adv = IMG.SBV2xAdvancedParams(dek=dek, mac=mac, nonce=nonce, timestamp=TS, padding=bytes(8))
+    img = IMG.BootImageV20(False, kek, *sections, product_version=c["pv"], component_version=c["cv"], build_number=build,
+                           advanced_params=adv)
+    data = img.export(padding=bytes(8))
+    b = list(data)
+    n = len(b)
+    env.prove(n % 16 == 0, "rom20.file_is_block_multiple")
+    env.prove(env.bytes_eq(b[0:16], nonce), "rom20.header_nonce")
+    env.prove(bytes(b[20:24]) == b"STMP" and bytes(b[52:56]) == b"sgtl", "rom20.header_signatures")
+    env.prove(b[24] == 2 and b[25] == 0, "rom20.header_version_2_0")
+    env.prove(u16(b, 26) == 0x04, "rom20.header_flags_encrypted_unsigned")
+    image_blocks, first_tag_block, first_sect_id = u32le(b, 28), u32le(b, 32), u32le(b, 36)
+    hdr_blocks, keyblob_block, keyblob_cnt, max_macs = u16(b, 44), u16(b, 46), u16(b, 48), u16(b, 50)
+    env.prove(env.And(hdr_blocks == 6, keyblob_block == 8, keyblob_cnt == 5), "rom20.header_layout_constants")
+
+    def bcd_words(o):
+        return [b[o + 4 * i] * 256 + b[o + 4 * i + 1] for i in range(3)]
+    env.prove(bcd_words(64) == [int(x, 16) for x in c["pv"].split(".")], "rom20.header_product_version")
+    env.prove(bcd_words(76) == [int(x, 16) for x in c["cv"].split(".")], "rom20.header_component_version")
+    env.prove(u32le(b, 88) == build, "rom20.header_build_number")
+    env.prove(env.bytes_eq(b[96:128], K.hmac(mac, b[0:96])), "rom20.header_mac_over_header")
+    blob = b[128:208]
+    keys = K.unwrap(kek, blob[:72])
+    env.prove(env.And(env.bytes_eq(keys[:32], dek), env.bytes_eq(keys[32:], mac)), "rom20.keyblob_unwraps_to_dek_and_mac")
+    sect0 = 208
+    env.prove(image_blocks * 16 == n, "rom20.header_image_blocks")
+    env.prove(first_tag_block * 16 == sect0, "rom20.header_first_boot_tag_block")
+    env.prove(first_sect_id == specs[0][0], "rom20.header_first_boot_section_id")
+    pos, total_macs, covered = decode_sections(env, c, b, n, sect0, sect0, nonce, dek, mac, specs, v21=False)
+    if pos is None:
+        return
+    env.prove(pos == n, "rom20.no_trailing_bytes")
+    env.prove(max_macs == total_macs, "rom20.header_max_section_mac_count")
+    env.prove(all(covered), "rom20.every_byte_maced")
+    if any(not ok for lab, ok in env.trace if not lab.endswith("load_count_is_data_length")):   # (that one: recorded finding)
+        return
+    back = IMG.BootImageV20.parse(data, kek=kek)
+    env.prove(back.header.build_number == build, "parse20.build_number")
+    env.prove(len(back._boot_sections) == len(specs), "parse20.all_sections_returned")
+    for sec, (uid, sp_) in zip(back._boot_sections, specs):
+        env.prove(sec.uid == uid and len(sec._commands) == len(sp_), "parse20.section_uid_and_command_count")
+        for got, (cmd, hdr, payload) in zip(sec._commands, sp_):
+            env.prove_eq(got.export()[:16], cmd.export()[:16], "parse20.command_equals_given")
 
 
 def cases(tier):
@@ -462,6 +537,15 @@ def cases(tier):
     cs.append(dict(base, id="rom/sig512_chain2", sections=[["load16", "call"]], sig=512, chain=2))
     cs.append(dict(base, id="rom/sig384", sections=[["fill4"]], sig=384, sha=False))
     cs.append(dict(base, id="rom/versions", sections=[["reset"]], pv="999.0.1", cv="10.200.9999"))
+    b20 = dict(base, h="rom20")
+    for k in KINDS:
+        cs.append(dict(b20, id=f"rom20/one/{k}", sections=[[k]]))
+    for t in triples:
+        for hm in (1, 2, 5):
+            cs.append(dict(b20, id=f"rom20/triple/{'+'.join(t)}/hmac={hm}", sections=[t], hmac=hm))
+    cs.append(dict(b20, id="rom20/two_sections", sections=[["erase", "load17"], ["load16", "reset"]], hmac=2))
+    cs.append(dict(b20, id="rom20/two_sections_hmac5", sections=[["load32"], ["jump"]], hmac=5))
+    cs.append(dict(b20, id="rom20/versions", sections=[["reset"]], pv="999.0.1", cv="10.200.9999"))
     if not q:
         import itertools
         for a, b_ in itertools.product(KINDS, repeat=2):
